@@ -182,7 +182,7 @@ def _separator_updates(R, cls, rid):
     return n
 
 
-def _bit_ranges(R, cls, rid):
+def _bit_ranges(P, R, cls, rid):
     """every bit range written next to a cable name: the bounds come from the one function that turns a wire into its bit index
     (position + lower_index), and from wires of that same cable expression"""
     conv = None
@@ -204,7 +204,11 @@ def _bit_ranges(R, cls, rid):
     if not writers or conv is None:
         raise AnalysisError("anchor vanished: the Verilog range writer (name[hi:lo]) or the wire-to-bit-index function")
     n = 0
-    for mname, f in sorted(cls.methods.items()):
+    from ..inline import inlined_view
+    keepers = tuple(writers) + (conv.name,)
+    views = {m: inlined_view(P, f_, keep=keepers) for m, f_ in cls.methods.items()}
+    spliced = {h for v in views.values() for h in getattr(v, "inlined_helpers", [])}
+    for mname, f in sorted(views.items()):
         assigns = {}
         families = {}
         loopvars = set()
@@ -270,6 +274,8 @@ def _bit_ranges(R, cls, rid):
             if not (isinstance(c, ast.Call) and isinstance(c.func, ast.Attribute) and norm(c.func.value) == "self" and c.func.attr in writers
                     and len(c.args) == 3):
                 continue
+            if f.qualname in spliced and all(isinstance(a, ast.Name) and a.id in f.params for a in c.args[1:]):
+                continue  # a private helper forwarding its own parameters: read in place at each of its call sites
             n += 1
             croots, _, _ = origins(c.args[0], at=c)
             problems = []
@@ -391,7 +397,7 @@ def check_c04(ctx, R):
                       "lands on other bits depending on whether the port map is named or positional, and the writer can only write one of the two"
                       % (f_.qualname, ref_f.qualname, txt[:120], ref_txt[:120]))
     R.rule("B6'", "bit ranges: bounds go through the wire-to-bit-index function and belong to the cable whose name is written")
-    n6 = _bit_ranges(R, B.cls, "B6'")
+    n6 = _bit_ranges(P, R, B.cls, "B6'")
     R.count("range emissions (B6')", n6)
     R.floor("range emissions (B6')", 6)
 
